@@ -439,7 +439,10 @@ impl<'a, W: fmt::Write> JsExprWriter<'a, W> {
             top_scope: &mut self.top_scope,
         })?;
         #[cfg(glass_easel_verif)]
-        verif::trace("fd|", "");
+        verif::trace(
+            "fd|",
+            &args.iter().map(|x| x.to_string()).collect::<Vec<_>>().join(","),
+        );
         write!(
             &mut self.w,
             "({})=>{{",
